@@ -160,6 +160,11 @@ func cmdCheck(args []string) {
 		}
 	}
 	sort.Strings(keys)
+	var onlyFiles []string
+	if v := os.Getenv("VERIF_ONLY_FILES"); v != "" {
+		onlyFiles = strings.Split(v, ",")
+		ps.MinObligations = 0
+	}
 	var all []*Obligation
 	var fnNames []string
 	var havocSites []string
@@ -175,6 +180,21 @@ func cmdCheck(args []string) {
 			// no longer be checked against the code
 			missing = append(missing, k)
 			continue
+		}
+		if len(onlyFiles) > 0 {
+			// development aid (tools/seedrun.sh): verification is modular, so a change inside
+			// a function body can only affect that function's own obligations; restrict the run
+			// to the functions defined in the named files. Never used by the registered checks.
+			fn := P.prog.Fset.Position(f.Pos()).Filename
+			keep := false
+			for _, of := range onlyFiles {
+				if strings.HasSuffix(fn, of) {
+					keep = true
+				}
+			}
+			if !keep {
+				continue
+			}
 		}
 		c, err := verifyFunc(P, f, ct)
 		if err != nil {
